@@ -174,3 +174,21 @@ CORPUS += [
     V("C03", "eq-tour-roll-plus", "rl4co/utils/ops.py", "ordered_locs_next = torch.roll(ordered_locs, -1, dims=-2)", "ordered_locs_next = torch.roll(ordered_locs, 1, dims=-2)", None),
     V("C03", "eq-cvrp-rename", R + "cvrp/env.py", "locs_ordered", "seq", None, count=99),
 ]
+
+CORPUS += [
+    # ---------------------------------------------------------------- C04
+    V("C04", "cvrp-done-all-batch", R + "cvrp/env.py", "done = visited.sum(-1) == visited.size(-1)", "done = (visited.sum(-1) == visited.size(-1)).all().expand(visited.size(0))", "C04.a"),
+    V("C04", "cvrptw-row0-deadline-again", R + "cvrptw/env.py", '<= td["time_windows"][..., 0, 1, None]', '<= td["time_windows"][..., 0, 1][0]', "C04.a"),
+    V("C04", "op-capacity-from-row0", R + "op/env.py", '            > td["max_length"]\n', '            > td["max_length"][0]\n', "C04.a"),
+    V("C04", "tsp-i-per-row-breaks-uniformity", R + "tsp/env.py", '"i": td["i"] + 1,', '"i": td["i"] + (~done).long().unsqueeze(-1),', "C04.a"),
+    V("C04", "mtvrp-normalise-by-batch-max", R + "mtvrp/env.py", 'arrival_time = td["current_time"] + (d_ij / td["speed"])', 'arrival_time = td["current_time"] + (d_ij / td["speed"].max())', "C04.a"),
+    V("C04", "cvrp-reward-mean-shift", R + "cvrp/env.py", "        return -get_tour_length(locs_ordered)\n\n    @staticmethod\n    def check_solution_validity(td: TensorDict, actions: torch.Tensor):\n        \"\"\"Check that solution is valid: nodes are not visited twice except depot and capacity is not exceeded\"\"\"",
+      "        length = get_tour_length(locs_ordered)\n        return -(length - length.mean() * 0)\n\n    @staticmethod\n    def check_solution_validity(td: TensorDict, actions: torch.Tensor):\n        \"\"\"Check that solution is valid: nodes are not visited twice except depot and capacity is not exceeded\"\"\"", "C04.a"),
+    V("C04", "sdvrp-shortcut-if-any-done", R + "sdvrp/env.py", "        # Get done\n        done = ~(demand_with_depot > 0).any(-1)", "        # Get done\n        done = ~(demand_with_depot > 0).any(-1)\n        if done.any():\n            used_capacity = used_capacity * 0", "C04.a"),
+    V("C04", "pctsp-done-dim-minus1-on-rank1", R + "pctsp/env.py", 'done = (td["i"] > 0) & (current_node == 0)', 'done = ((td["i"] > 0) & (current_node == 0)) | (td["cur_total_prize"] > 1000).any(-1)', "C04.a"),
+    V("C04", "mtsp-length-divided-by-batch", R + "mtsp/env.py", "reward = -max_subtour_length", "reward = -max_subtour_length * (td.batch_size[0] / td.batch_size[0])", None),
+    # equivalents
+    V("C04", "eq-cvrp-rename", R + "cvrp/env.py", "selected_demand", "sel", None, count=99),
+    V("C04", "eq-op-explicit-dim", R + "op/env.py", "(current_loc - previus_loc).norm(p=2, dim=-1)", "(current_loc - previus_loc).norm(p=2, dim=(-1,))", None),
+    V("C04", "eq-fjsp-any-dim1", "rl4co/envs/scheduling/fjsp/env.py", 'td["job_in_process"].any(1, keepdims=True)', 'td["job_in_process"].any(dim=1, keepdims=True)', None),
+]
